@@ -29,6 +29,9 @@ PREFIX = part('prefix', [])            # concrete leading event indices (partiti
 FRAG = part('frag', False)             # endpoint fragments at 64 bytes; local payloads are 100 bytes
 LEASE = part('lease', False)           # client honours leases (requester roles): LEASE arrives as an extra event
 REQ_FOLLOWS = part('req_follows', False)   # responder roles: the request itself arrives in two fragments
+RESP_NO_PUB = part('resp_no_pub', False)   # channel responder: the handler returns (None, subscriber)
+REQ_COMPLETE = part('req_complete', False) # channel responder: the REQUEST_CHANNEL carries COMPLETE (requester has no publisher)
+EARLY_FIRST = part('early_first', False)   # the first event happens in the same loop slice as the opening of the interaction (its frames still queued)
 PROBE_REUSE = part('probe_reuse', False)   # C10: after termination a new request on the same id must be accepted
 
 # event kinds
@@ -73,8 +76,10 @@ class _Handler(BaseRequestHandler):
     async def request_channel(self, payload):
         p = RecPub()
         s = Rec()
-        self.pubs[len(self.pubs)] = p
         self.subs[len(self.subs)] = s
+        if RESP_NO_PUB:
+            return None, s
+        self.pubs[len(self.pubs)] = p
         return p, s
 
     async def on_close(self, rsocket, exception=None):
@@ -143,7 +148,8 @@ def run_history(ev, fa, fb, fc, n):
             elif role == 'rs_resp':
                 req = to_request_stream_frame(SID, Payload(b'q' * (3 if not REQ_FOLLOWS else 80)), initial_request_n=n)
             else:
-                req = to_request_channel_frame(SID, Payload(b'q' * (3 if not REQ_FOLLOWS else 80)), initial_request_n=n)
+                req = to_request_channel_frame(SID, Payload(b'q' * (3 if not REQ_FOLLOWS else 80)), initial_request_n=n,
+                                               complete=bool(REQ_COMPLETE))
             if REQ_FOLLOWS:
                 req.fragment_size_bytes = 64
                 while True:
@@ -161,11 +167,12 @@ def run_history(ev, fa, fb, fc, n):
             o.by = ep.request_response(Payload(b'by'))
         else:
             t.feed_wire(to_request_response_frame(BY, Payload(b'by')))
-        loop.run_ready()
+        if not EARLY_FIRST:
+            loop.run_ready()
         o.by_fut = None if requester else h.futs.get(1 if role == 'rr_resp' else 0)
 
         # ---- peer-legality automaton state
-        peer_done = False         # peer closed its sending direction (COMPLETE) or sent a terminal
+        peer_done = bool(REQ_COMPLETE) and role == 'ch_resp'   # peer closed its sending direction (COMPLETE) or sent a terminal
         peer_dead = False         # peer sent ERROR (or CANCEL in rr/rs): nothing more from it on this stream
         peer_cancelled = False    # peer sent CANCEL (channel: it no longer wants our elements)
         peer_midfrag = False      # peer is in the middle of a fragmented PAYLOAD
@@ -318,9 +325,10 @@ def run_history(ev, fa, fb, fc, n):
                 o.applied.append('loss:' + o.lost_how)
             loop.run_ready()
             # a partial frame received BEFORE the interaction ended must be dropped when it ends (fragments that arrive
-            # afterwards from a peer that is still mid-frame are transient and judged separately)
+            # afterwards from a peer that is still mid-frame are transient and judged separately; a closed connection's
+            # cache is dead state and not judged)
             if (SID not in ep._stream_control._streams and SID in ep._frame_fragment_cache._frames_by_stream_id
-                    and not (e == PAYLOAD and peer_midfrag)):
+                    and not (e == PAYLOAD and peer_midfrag) and not o.closed):
                 o.partial_kept_at_end = True
         loop.run_ready()          # quiescence (skipped events and racing cancels do not run the loop themselves)
         o.peer_done, o.peer_dead, o.peer_cancelled, o.peer_midfrag = peer_done, peer_dead, peer_cancelled, peer_midfrag
